@@ -79,7 +79,12 @@ macro_rules! prefix_str_mut {
             /// the value of the length bytes.
             pub unsafe fn new_unchecked(data: &'a mut [u8]) -> Self {
                 let type_length = std::mem::size_of::<$prefix_type>();
-                let length = (data.len().saturating_sub(type_length) as $prefix_type).to_le_bytes();
+                // the recorded length is limited by what the prefix can express
+                let length = std::cmp::min(
+                    data.len().saturating_sub(type_length),
+                    <$prefix_type>::MAX as usize,
+                );
+                let length = (length as $prefix_type).to_le_bytes();
                 data[..type_length].copy_from_slice(&length);
                 Self::from_bytes_mut(data)
             }
